@@ -540,7 +540,15 @@ func runHistory(c kv) string {
 				emit("P|error")
 			default:
 				m := e.VerifMachine()
-				emit("P|ok|" + encProgram(e.VerifConstants(), e.VerifUnoptimized(), e.VerifCompiledFunctions()) +
+				// the optimizer patches the compiler's buffer in place, so the
+				// compiler's own output is taken from a second, unoptimized preparation
+				u := evalfilter.New(src)
+				uerr := u.Prepare([]byte{evalfilter.NoOptimize})
+				if uerr != nil {
+					emit("P|ok|UNOPT-REJECTED|" + encProgram(m.VerifConstants(), m.VerifBytecode(), m.VerifFunctions()))
+					break
+				}
+				emit("P|ok|" + encProgram(u.VerifConstants(), u.VerifUnoptimized(), u.VerifCompiledFunctions()) +
 					"|" + encProgram(m.VerifConstants(), m.VerifBytecode(), m.VerifFunctions()))
 			}
 		case "run", "exec":
